@@ -682,6 +682,21 @@ def gen_cases(ctx, big):
                                                                               D.Struct([val("a", u8())])))])
     for b in ("22ff41", "224142", "22efbfbd", "22"):
         dec(emf, bytes.fromhex(b), "corpus-end-marker")
+    # end-marker fields whose termination DOP has a RESTRICTED internal domain (LINEAR with limits, TEXTTABLE, sign-magnitude string …):
+    # the probe for the termination value then fails through odxraise (strict: DecodeError after the cursor moved; lenient: a value) —
+    # every message over a small alphabet of first bytes inside / outside the domain / equal to the marker, 0–2 items, with and without marker
+    import itertools
+    lin = D.SimpleDop(D.Std("A_UINT32", 8), "A_UINT32", D.Linear(0, 1, 1, (0x10, "CLOSED"), (0x7F, "CLOSED")))
+    lin2 = D.SimpleDop(D.Std("A_UINT32", 8), "A_INT32", D.Linear(-16, 1, 1, (0x10, "OPEN"), None))
+    # (odxtools parses TERMINATION-VALUE with the base data type of the termination DOP's *coded* type, so a text table — whose physical
+    #  values are strings — cannot be a termination DOP with a parsable marker; the restricted domains are numeric)
+    for tag, td, term in (("linear-limits", lin, 0x10), ("linear-open", lin2, 1)):
+        for item in (D.Struct([val("a", u8()), val("b", u8())]), D.Struct([val("a", u8(16))])):
+            comp = D.Composite("RQ", "request", [D.sid(), val("f", D.EndMarkerField(term, td, item))])
+            alphabet = (0x05, 0x10, 0x11, 0x20, 0x80, 0xFF)
+            for n in (0, 1, 2, 3, 4, 5):
+                for body in itertools.islice(itertools.product(alphabet, repeat=n), 0, None, 1 if n <= 3 else 7):
+                    dec(comp, bytes([0x22]) + bytes(body), "enum-end-marker-domain")
     mux = D.Composite("RQ", "request", [D.sid(), val("m", D.Mux(1, 0, None, u8(), [D.MuxCase("c1", 1, 1, D.Struct([val("a", u8())]))]))])
     for b in ("220105", "220205", "2200"):
         dec(mux, bytes.fromhex(b), "corpus")
